@@ -27,6 +27,9 @@ from harness.sim import EXC_KINDS
 KIND_SHAPES = [("boomx", ("k_%s" % k, k), {}) for k in sorted(EXC_KINDS)]
 
 
+RUN_LEN = 150
+
+
 def scenario(repo, seed, tmpdir, order):
     sim = Sim(repo, ["a", "b", "c"], seed=seed, journal_dir=tmpdir, dump=True, conf={"useFork": False})
     sim.connect_all()
@@ -78,6 +81,15 @@ def scenario(repo, seed, tmpdir, order):
     sim.run(20)
     cids[sim.submit(L, "end2")] = ("add", "end2")
     sim.run(20)
+    # a long run of raising commands with no successful one in between (a client polling for something that is
+    # not there): every one of them is an outcome, however many follow each other
+    for k in range(RUN_LEN):
+        cids[sim.submit_call([L, F, G][k % 3], "boom", ("run%d" % k,), {})] = ("boom", ("run%d" % k,), {})
+        if k % 8 == 7:
+            sim.run(2)
+    sim.run(20)
+    cids[sim.submit(L, "end3")] = ("add", "end3")
+    sim.run(20)
     # monitors
     viols += monitors.errors(sim)
     fired = {}
@@ -99,7 +111,7 @@ def scenario(repo, seed, tmpdir, order):
             viols.append({"signature": "apply-loop:replicas-differ",
                           "what": "node %s state %r, leader %s state %r" % (i, states[i][-6:], L, ref[-6:])})
             break
-    if ("end" not in ref) or ("missed" not in ref):
+    if ("end" not in ref) or ("missed" not in ref) or ("end3" not in ref):
         viols.append({"signature": "apply-loop:later-command-not-applied", "what": "leader state %r" % (ref[-6:],)})
     return sim, viols, None
 
